@@ -40,6 +40,16 @@ CLAIMED = {
         design='DESIGN.md §5 C03',
         note=NOTE_COMMON + 'list.sort stability and reverse=True semantics are modelled; partially ordered key types excluded.',
         technique='Lean 4 proof (multi-pass stable sort = lexicographic stable sort) + differential correspondence'),
+    'C10': dict(
+        text=('Lean theorems over the cursor state machine: for every call sequence after an execute the rows delivered so far '
+              'are exactly the first `rownumber` rows of the result (in order, none twice, none skipped), rowcount stays the '
+              'result size, exhaustion is signalled by None / [] exactly when all rows were delivered, a new execute resets, '
+              '-1/None before execute; Column is a 7-item sequence with Python index/slice laws. Tied to the code by exhaustive '
+              'short call sequences and random long ones compared call by call (return value, rowcount, rownumber, description), '
+              'with sqlite3 as a second opinion.'),
+        design='DESIGN.md §5 C10',
+        note=NOTE_COMMON + 'fetchmany sizes are non-negative.',
+        technique='Lean 4 invariant/refinement proof over the cursor state machine + exhaustive op-sequence correspondence'),
 }
 
 PENDING_REASON = 'check under construction in this round (model or correspondence not yet registered); not claimed yet'
